@@ -2,6 +2,7 @@ import Sebuf.DriverC05
 import Sebuf.OpenApi
 import Sebuf.OaComp
 import Sebuf.OaEmit
+import Sebuf.OaParams
 import Sebuf.DriverSchema
 import Sebuf.OaSchema
 namespace Sebuf.Driver
@@ -61,6 +62,11 @@ def opOaNames (j : Lean.Json) : Lean.Json :=
   Lean.Json.mkObj [("format", Lean.Json.str (OaEmit.formatOf param)),
     ("names", Lean.Json.arr ((OaEmit.docNames param svcs).map Lean.Json.str).toArray)]
 
+
+/-- the output format constant for each raw plugin parameter string (`OaParams.formatOfParam`). -/
+def opOaFormat (j : Lean.Json) : Lean.Json :=
+  Lean.Json.mkObj [("formats", Lean.Json.arr ((getStrList j "params").map fun p =>
+    Lean.Json.str (OaParams.formatOfParam (some p))).toArray)]
 
 /-- YAML 1.1 re-typing of property names / plain scalars in the JSON rendering. -/
 def opYaml11 (j : Lean.Json) : Lean.Json :=
